@@ -110,3 +110,53 @@ Theorem C17_cat_of_range_empty :
   forall (cats : list N) (a b : nat), (b <= a)%nat -> Buffer.cat_of_range cats a b = Some 0.
 Proof. exact BufferCharProofs.cat_of_range_empty. Qed.
 Print Assumptions C17_cat_of_range_empty.
+
+(* ==================================================================================================================
+   Which file a relative `characterDefinitionFile` names (Model/PathResolve.v; the same route resolves systemDict, userDict
+   and the plugins' definition files, so C13 / C07 may reuse the model).  The file system is abstract (exists_in,
+   exists_cwd); anchors = `path`, resource directory, root directory in this order, duplicates dropped. *)
+From SudachiVerif Require Import Model.PathResolve Proofs.PathResolveProofs.
+From SudachiVerif Require Generated.PathResolveFacts.
+
+(* the anchors are added in the order path, resource directory, root directory; first_existing tries them in that order;
+   complete_path: absolute as it is, else the first existing anchor, else the working directory, else an error *)
+Fact C17_fact_resolution_order :
+  Generated.PathResolveFacts.anchor_order = ["path"; "resource_dir"; "rootDirectory"]%string
+  /\ Generated.PathResolveFacts.first_existing_body = "self.all_candidates(path).find(|p|p.exists())"%string
+  /\ Generated.PathResolveFacts.all_candidates_body = "self.roots.iter().map(move|root|root.join(path.clone()))"%string
+  /\ Generated.PathResolveFacts.complete_path_steps
+     = ["pref.is_absolute()=>Ok(file_path.into())"; "Some=self.resolver.first_existing(pref)=>Ok(p)";
+        "pref.exists()=>Ok(file_path.into())"; "otherwise=>Err"]%string.
+Proof. vm_compute. repeat split; reflexivity. Qed.
+
+(* what complete_path answers: an absolute name as it is; otherwise the FIRST anchor (in the order above) that holds the
+   file; the working directory only when no anchor holds it; an error only when nothing holds it *)
+Theorem C17_resolved_file_is_first_existing_anchor :
+  forall (dir file : Type) (is_absolute : file -> bool) (exists_in : dir -> file -> bool) (exists_cwd : file -> bool)
+         (roots : list dir) (f : file),
+    match complete_path dir file is_absolute exists_in exists_cwd roots f with
+    | AsIs => is_absolute f = true
+    | InAnchor d => is_absolute f = false /\
+                    exists pre post, roots = (pre ++ d :: post)%list /\ exists_in d f = true /\ forall x, In x pre -> exists_in x f = false
+    | InCwd => is_absolute f = false /\ (forall x, In x roots -> exists_in x f = false) /\ exists_cwd f = true
+    | NotFound => is_absolute f = false /\ (forall x, In x roots -> exists_in x f = false) /\ exists_cwd f = false
+    end.
+Proof. exact complete_path_spec. Qed.
+Print Assumptions C17_resolved_file_is_first_existing_anchor.
+
+(* no lower-priority location is chosen when a higher one holds the file *)
+Theorem C17_higher_anchor_wins :
+  forall (dir file : Type) (is_absolute : file -> bool) (exists_in : dir -> file -> bool) (exists_cwd : file -> bool)
+         (roots : list dir) (f : file) (i : nat) (d : dir),
+    is_absolute f = false -> nth_error roots i = Some d -> exists_in d f = true ->
+    exists j d', (j <= i)%nat /\ nth_error roots j = Some d' /\
+                 complete_path dir file is_absolute exists_in exists_cwd roots f = InAnchor d'.
+Proof. exact higher_anchor_wins. Qed.
+Print Assumptions C17_higher_anchor_wins.
+
+(* the anchors of a configuration with three different directories: path, resource directory, root directory *)
+Theorem C17_anchor_order :
+  forall (dir : Type) (eqb : dir -> dir -> bool) p r o,
+    eqb r p = false -> eqb o p = false -> eqb o r = false -> anchors dir eqb (Some p) r (Some o) = [p; r; o].
+Proof. exact anchors_order. Qed.
+Print Assumptions C17_anchor_order.
